@@ -245,7 +245,8 @@ impl Decl {
 // ------------------------------------------------------------------ generator
 
 const WORDS: [&str; 10] = ["Get", "Set", "Led", "Adc", "Run", "Stop", "Item", "Mode", "Pin", "Log"];
-const FIELD_NAMES: [&str; 12] = ["alpha", "beta", "gamma", "delta", "eps", "zeta", "eta", "theta", "iota_x", "kappa_y", "lam", "mu_nu_xi"];
+// two names start with `h`: their generated short option is `-h`, which only a build without the help facility can use
+const FIELD_NAMES: [&str; 14] = ["alpha", "beta", "gamma", "delta", "eps", "zeta", "eta", "theta", "iota_x", "kappa_y", "lam", "mu_nu_xi", "host", "hex_v"];
 // several syllables share their leading octets (é/ê, €/₭, 向/吐, 𐍈/𐍉): names then diverge inside a character
 const NAME_SYL: [&str; 20] = ["a", "b", "c", "d", "g", "s", "t", "é", "ж", "go", "st", "€", "Up", "x_y", "ê", "₭", "向", "吐", "𐍈", "𐍉"];
 
@@ -341,7 +342,7 @@ fn gen_fields(rng: &mut Rng, uid: &mut usize, allow_positional: bool, rich: bool
     let n = if rich { rng.range(1, 6) } else { rng.range(0, 3) };
     let mut names: Vec<&str> = FIELD_NAMES.to_vec();
     let mut longs: Vec<String> = vec!["help".into()];
-    let mut shorts: Vec<char> = vec!['h'];
+    let mut shorts: Vec<char> = vec![];
     let mut vnames: Vec<String> = vec![];
     let mut out = vec![];
     for _ in 0..n {
@@ -370,7 +371,7 @@ fn gen_fields(rng: &mut Rng, uid: &mut usize, allow_positional: bool, rich: bool
             if which != 1 {
                 let gen_short = name.chars().next().unwrap();
                 if rng.chance(40) || shorts.contains(&gen_short) {
-                    let pool = ['x', 'y', 'q', 'w', 'Ю', 'é', '7', 'K', 'V', 'n', 'r', 'u'];
+                    let pool = ['x', 'y', 'q', 'w', 'Ю', 'é', '7', 'K', 'V', 'n', 'r', 'u', 'h'];
                     let free: Vec<char> = pool.iter().copied().filter(|c| !shorts.contains(c)).collect();
                     if let Some(c) = free.get(rng.below(free.len().max(1))) {
                         short = Some(*c);
